@@ -65,6 +65,117 @@ L2(a, b) == CASE a.k = "Segment" /\ b.k = "Segment" -> SegSegL2(a, b)
               [] a.k = "HalfLine" /\ b.k = "HalfLine" -> HalfHalfL2(a, b)
               [] a.k \in {"Line", "Plane"} /\ b.k \in {"Segment", "HalfLine"} -> ViaCarrierL2(a, b)
               [] a.k \in {"Segment", "HalfLine"} /\ b.k \in {"Line", "Plane"} -> ViaCarrierL2(b, a)
+---------------------------------------------------------------------------
+\* ---- handlers involving polygons and polyhedra (hash sets = sets of exact points; "Bug" = the branch that raises
+\*      TypeError("Bug detected") or a constructor that would be given degenerate input)
+Bug == [k |-> "Bug"]
+PlaneOfPolygon(g) == MkPlane(g.cyc[1], g.n)
+PolyEdges(g) == { MkSegment(g.cyc[i], g.cyc[IF i = Len(g.cyc) THEN 1 ELSE i + 1]) : i \in 1..Len(g.cyc) }
+FacesOf(K) == { MkPolygon(fc.cyc, fc.n) : fc \in K.fs }
+EdgesOf(K) == UNION { PolyEdges(g) : g \in FacesOf(K) }
+FromPointSet(ps) == CASE Cardinality(ps) = 0 -> NoneObj
+                      [] Cardinality(ps) = 1 -> MkPoint(CHOOSE P \in ps : TRUE)
+                      [] Cardinality(ps) = 2 -> LET P == CHOOSE P \in ps : TRUE IN MkSegment(P, CHOOSE Q \in ps : Q # P)
+                      [] OTHER -> Bug
+\* the two extreme points of a collinear point set (get_segment_from_point_list)
+Extremes(ps) == LET P == CHOOSE P \in ps : \E Q \in ps : \A X \in ps : Dot(HDiff(X, P), HDiff(Q, P)) >= 0 /\ Dot(HDiff(X, Q), HDiff(P, Q)) >= 0
+                    Q == CHOOSE Q \in ps : \A X \in ps : Dot(HDiff(X, P), HDiff(Q, P)) >= 0 /\ Dot(HDiff(X, Q), HDiff(P, Q)) >= 0 /\ Q # P
+                IN MkSegment(P, Q)
+PolygonFromPoints(ps) == IF CollinearSet(ps) \/ ~CoplanarSet(ps) THEN Bug ELSE HullPolygon(ps)
+
+\* inter_line_convexpolygon
+LinePolygonL2(l, g) ==
+  LET i == InterAnalytic(l, PlaneOfPolygon(g))
+  IN CASE i.k = "None" -> NoneObj
+       [] i.k = "Point" -> IF Mem(i.p, g) THEN i ELSE NoneObj
+       [] i.k = "Line" -> LET res == { ViaCarrierL2(l, e) : e \in PolyEdges(g) }          \* intersection(segment, l) per edge
+                              segs == { r \in res : r.k = "Segment" }
+                          IN IF segs # {} THEN CHOOSE r \in segs : TRUE
+                             ELSE FromPointSet({ r.p : r \in { r \in res : r.k = "Point" } })
+\* intersection(Point or Segment, Segment / HalfLine) as used for the second step of the segment / half-line handlers
+WithSeg(x, s) == CASE x.k = "None" -> NoneObj
+                   [] x.k = "Point" -> IF Mem(x.p, s) THEN x ELSE NoneObj
+                   [] x.k = "Segment" -> IF s.k = "Segment" THEN SegSegL2(x, s) ELSE SegHalfL2(x, s)
+                   [] OTHER -> Bug
+\* inter_segment_convexpolygon / inter_convexpolygon_halfline
+OneDPolygonL2(s, g) ==
+  LET carrier == MkLine(Base(s), Dir(s))
+      i == InterAnalytic(carrier, PlaneOfPolygon(g))
+  IN CASE i.k = "None" -> NoneObj
+       [] i.k = "Point" -> IF Mem(i.p, s) /\ Mem(i.p, g) THEN i ELSE NoneObj
+       [] i.k = "Line" -> WithSeg(LinePolygonL2(carrier, g), s)
+\* inter_plane_convexpolygon
+PlanePolygonL2(pl, g) ==
+  LET i == InterAnalytic(pl, PlaneOfPolygon(g))
+  IN CASE i.k = "None" -> NoneObj [] i.k = "Plane" -> g [] i.k = "Line" -> LinePolygonL2(i, g)
+\* inter_plane_convexpolyhedron
+PlanePolyhedronL2(pl, K) ==
+  LET inplane == { g \in FacesOf(K) : SameSet(PlaneOfPolygon(g), pl) }
+      hits == { r.p : r \in { r \in { ViaCarrierL2(pl, e) : e \in EdgesOf(K) } : r.k = "Point" } }
+  IN IF inplane # {} THEN CHOOSE g \in inplane : TRUE
+     ELSE IF Cardinality(hits) <= 2 THEN FromPointSet(hits) ELSE PolygonFromPoints(hits)
+\* inter_line_convexpolyhedron
+LinePolyhedronL2(l, K) ==
+  LET res == { LinePolygonL2(l, g) : g \in FacesOf(K) }
+      segs == { r \in res : r.k = "Segment" }
+      pts == { r.p : r \in { r \in res : r.k = "Point" } }
+  IN IF Bug \in res THEN Bug ELSE IF segs # {} THEN CHOOSE r \in segs : TRUE
+     ELSE IF Cardinality(pts) <= 1 THEN FromPointSet(pts) ELSE Extremes(pts)
+\* inter_segment_convexpolyhedron / inter_convexpolyhedron_halfline: boundary point hits plus the end points that are inside
+OneDPolyhedronL2(s, K) ==
+  LET ends == IF s.k = "Segment" THEN {s.a, s.b} ELSE {s.p}
+      inside == { P \in ends : Mem(P, K) }
+      hits == { r.p : r \in { r \in { OneDPolygonL2(s, g) : g \in FacesOf(K) } \cup { WithSeg(e, s) : e \in EdgesOf(K) } : r.k = "Point" } }
+  IN IF s.k = "Segment" /\ inside = ends THEN s ELSE FromPointSet(hits \cup inside)
+\* inter_convexpolygon_convexpolygon
+PolygonPolygonL2(a, b) ==
+  LET i == InterAnalytic(PlaneOfPolygon(a), PlaneOfPolygon(b))
+  IN CASE i.k = "None" -> NoneObj
+       [] i.k = "Line" -> LET x == LinePolygonL2(i, a)  y == LinePolygonL2(i, b)
+                          IN IF x.k = "None" \/ y.k = "None" THEN NoneObj
+                             ELSE IF x.k = "Point" THEN (IF Mem(x.p, y) THEN x ELSE NoneObj)
+                             ELSE IF y.k = "Point" THEN (IF Mem(y.p, x) THEN y ELSE NoneObj)
+                             ELSE SegSegL2(x, y)
+       [] i.k = "Plane" -> LET ps == { P \in Range(a.cyc) : Mem(P, b) } \cup { P \in Range(b.cyc) : Mem(P, a) }
+                                     \cup { r.p : r \in { r \in { SegSegL2(e, f) : e \in PolyEdges(a), f \in PolyEdges(b) } : r.k = "Point" } }
+                           IN IF Cardinality(ps) <= 2 THEN FromPointSet(ps) ELSE PolygonFromPoints(ps)
+\* inter_convexpolygon_convexPolyhedron: cut the polyhedron with the polygon's plane, then intersect the section with the polygon
+PolygonPolyhedronL2(K, g) ==
+  LET sec == PlanePolyhedronL2(PlaneOfPolygon(g), K)
+  IN CASE sec.k = "None" -> NoneObj
+       [] sec.k = "Point" -> IF Mem(sec.p, g) THEN sec ELSE NoneObj
+       [] sec.k = "Segment" -> OneDPolygonL2(sec, g)
+       [] sec.k = "Polygon" -> PolygonPolygonL2(sec, g)
+       [] OTHER -> Bug
 HasL2(a, b) == (a.k \in {"Segment", "HalfLine"} /\ b.k \in {"Segment", "HalfLine", "Line", "Plane"})
                \/ (b.k \in {"Segment", "HalfLine"} /\ a.k \in {"Line", "Plane"})
+\* inter_convexpolyhedron_convexpolyhedron: every face of one body is cut by the other body; the resulting polygons (a hash
+\* set in the code: equal polygons are merged) are assembled into a polyhedron by the public constructor
+EdgePairs(vset) == LET c == HullPolygon(vset).cyc IN { {c[i], c[IF i = Len(c) THEN 1 ELSE i + 1]} : i \in 1..Len(c) }
+ClosedFaces(polys) == \A e \in UNION { EdgePairs(p) : p \in polys } : Cardinality({ p \in polys : e \in EdgePairs(p) }) = 2
+PolyhedronPolyhedronL2(K1, K2) ==
+  LET all == { PolygonPolyhedronL2(K2, g) : g \in FacesOf(K1) } \cup { PolygonPolyhedronL2(K1, g) : g \in FacesOf(K2) }
+      polys == { Range(r.cyc) : r \in { r \in all : r.k = "Polygon" } }
+      segs  == { {r.a, r.b} : r \in { r \in all : r.k = "Segment" } }
+      pts   == { r.p : r \in { r \in all : r.k = "Point" } }
+  IN IF Bug \in all THEN Bug
+     ELSE IF Cardinality(polys) > 1 THEN (IF ClosedFaces(polys) THEN [k |-> "Polyhedron", c |-> UNION polys] ELSE Bug)
+     ELSE IF Cardinality(polys) = 1 THEN [k |-> "Polygon", c |-> CHOOSE p \in polys : TRUE]
+     ELSE IF Cardinality(segs) > 1 THEN Bug
+     ELSE IF Cardinality(segs) = 1 THEN [k |-> "Segment", c |-> CHOOSE x \in segs : TRUE]
+     ELSE IF Cardinality(pts) > 1 THEN Bug
+     ELSE IF Cardinality(pts) = 1 THEN [k |-> "Point", c |-> CHOOSE x \in pts : TRUE]
+     ELSE [k |-> "None"]
+L2Body(a, b) ==      \* a flat or polygon, b a polygon or polyhedron (the handlers' own argument order)
+  CASE a.k = "Line" /\ b.k = "Polygon" -> LinePolygonL2(a, b)
+    [] a.k \in {"Segment", "HalfLine"} /\ b.k = "Polygon" -> OneDPolygonL2(a, b)
+    [] a.k = "Plane" /\ b.k = "Polygon" -> PlanePolygonL2(a, b)
+    [] a.k = "Plane" /\ b.k = "Polyhedron" -> PlanePolyhedronL2(a, b)
+    [] a.k = "Line" /\ b.k = "Polyhedron" -> LinePolyhedronL2(a, b)
+    [] a.k \in {"Segment", "HalfLine"} /\ b.k = "Polyhedron" -> OneDPolyhedronL2(a, b)
+    [] a.k = "Polygon" /\ b.k = "Polygon" -> PolygonPolygonL2(a, b)
+    [] a.k = "Polygon" /\ b.k = "Polyhedron" -> PolygonPolyhedronL2(b, a)
+    [] a.k = "Polyhedron" /\ b.k = "Polygon" -> PolygonPolyhedronL2(a, b)
+HasL2Body(a, b) == (a.k \in {"Line", "Segment", "HalfLine", "Plane"} /\ b.k \in {"Polygon", "Polyhedron"})
+                   \/ (a.k = "Polygon" /\ b.k \in {"Polygon", "Polyhedron"}) \/ (a.k = "Polyhedron" /\ b.k = "Polygon")
 =============================================================================
